@@ -51,13 +51,16 @@ theorem parserWF_succ (f : Nat) (ih : ParserWF f) : ParserWF (f + 1) := by
       split at h
       · cases h
       · rename_i args r2 hs
-        cases h
-        have := ih.sequence _ _ _ hs
-        refine ⟨?_, by simp [level]⟩
-        simp only [WF, okName]
-        refine ⟨⟨?_, ?_⟩, this⟩
-        · intro hn; subst hn; exact hhead (by simp)
-        · intro hn; exact hna hn
+        split at h
+        · rename_i hfn
+          cases h
+          have := ih.sequence _ _ _ hs
+          refine ⟨?_, by simp [level]⟩
+          simp only [WF, okName]
+          refine ⟨⟨?_, ?_⟩, hfn, this⟩
+          · intro hn; subst hn; exact hhead (by simp)
+          · intro hn; exact hna hn
+        · cases h
     · -- variable
       rename_i n r' _ hna _
       cases h
